@@ -7,7 +7,11 @@ import (
 	"verif/harness/hx"
 )
 
-type gen struct{ r *hx.Rand }
+type gen struct {
+	r *hx.Rand
+	// noBad: no unencodable details (direct Format cases compare the canonical JSON of the returned Body)
+	noBad bool
+}
 
 func newGen(r *hx.Rand) *gen { return &gen{r: r} }
 
@@ -175,6 +179,10 @@ func (g *gen) err(depth int) errT {
 		}
 		if r.Chance(1, 2) {
 			e.HasDe, e.Det = true, g.details()
+			// a Details() value that encoding/json refuses (NaN, a channel, a failing MarshalJSON, …)
+			if !g.noBad && r.Chance(1, 8) {
+				e.BadDet = r.Range(1, 6)
+			}
 		}
 		if depth < 5 && r.Chance(1, 2) {
 			in := g.err(depth + 1)
@@ -383,6 +391,12 @@ func (g *gen) acase() acaseT {
 	k.Prod = r.Chance(1, 4)
 	// a guard: c.Abort() first, then the error response
 	k.AbortFirst = r.Chance(1, 6)
+	// a user-written formatter whose body never encodes: only "abort the chain" is left of the statement
+	if r.Chance(1, 40) {
+		k.Opts = []optT{{F: &fmtT{Kind: "broken"}}}
+		k.Wire = "r"
+		return k
+	}
 	// something had set a Content-Type before the error happened
 	if r.Chance(1, 5) {
 		k.PreCT = sp(hx.Pick(r, []string{"text/csv; charset=utf-8", "text/html", "application/json", "application/octet-stream", "application/problem+json", "image/png"}))
@@ -495,6 +509,16 @@ func fixedCases() []caseT {
 			}}})
 		}
 	}
+	// K06d: a guard answers Forbidden / Fail with an error whose Details() cannot be encoded; handlers follow it
+	for i, f := range []fmtT{rfc, japi, simple} {
+		f := f
+		nan := errT{Kind: "typed", Msg: "forbidden", HasSt: true, St: 403, HasCo: true, Code: "E_FORBIDDEN", HasDe: true, Det: "null", BadDet: 1 + 2*i}
+		add(acaseT{Wire: "r", Opts: []optT{{F: &f}}, Len: 4, Pos: 1, Mask: 0x10f, Call: callT{Kind: "helper", Helper: 3, Err: &nan}})
+		add(acaseT{Wire: "s", Opts: []optT{{F: &f}}, Len: 3, Pos: 0, Mask: 7, Call: callT{Kind: "fail", Err: &errT{Kind: "wrap", Msg: "ctx", Inner: &nan}}})
+	}
+	// a formatter whose body never encodes, in front of a protected handler and an after-handler
+	add(acaseT{Wire: "r", Opts: []optT{{F: &fmtT{Kind: "broken"}}}, Len: 4, Pos: 1, Mask: 0x10f, Call: callT{Kind: "helper", Helper: 3, Err: boom}})
+	add(acaseT{Wire: "r", Opts: []optT{{F: &fmtT{Kind: "broken"}}}, Len: 3, Pos: 0, Mask: 7, Call: callT{Kind: "fail", Err: boom}})
 	// MarshalJSON with extensions that try to override every reserved member
 	out = append(out, caseT{M: &mcaseT{Type: "about:blank", Title: "Not Found", Status: 404, Ext: []extT{
 		{"type", `"evil"`}, {"title", `"evil"`}, {"status", `200`}, {"detail", `"evil"`}, {"instance", `"evil"`}, {"trace", `"t-` + strconv.Itoa(1) + `"`}}}})
